@@ -3,15 +3,19 @@
    the main ones are pinned by `Check`, each is followed by `Print Assumptions`.
 
    Model: Lint/Sens.v (`lint_model` = `lint_sensitivity_list` of vhdl_lang/src/lint/sensitivity_list.rs
-   as repaired by d3610d9, `lint_model_old` = the code before that commit).
+   as repaired by d3610d9 (F14/F15) and 8599f6f (F20); `lint_model_f20` = the code before 8599f6f,
+   `lint_model_old` = the code before d3610d9).
    Hypotheses of the exactness theorems (all decidable, all evaluated by the check on every
    generated process):
    * `in_family`      — positions the statement walker never visits mention no signal (index expressions
-                        of assignment targets, slice bounds, `after` expressions, report/severity
+                        of assignment targets, slice bounds of names that are read, `after` expressions, report/severity
                         expressions of assert, severity of report, arguments of attributes other than
                         'image), no 'event attribute, no wait statement;
-   * `no_out_actuals` — no signal is the actual of an out-mode procedure parameter (open finding F20:
-                        refuted without this hypothesis, see C20_out_actual_refuted);
+   * `calls_resolved` — the mode the specification attaches to every association element of a procedure call is what
+                        the code resolves (`is_out_mode_formal` holds exactly for the elements associated with an
+                        out-mode formal): true in every design that analyses without errors.  Procedure calls with
+                        in, out and inout formals, positional or named, are IN the family (8599f6f repaired F20;
+                        the pre-fix model is refuted in C20_out_actual_old_refuted);
    * `wf_pos`         — the token positions of the AST agree with the textual order;
    * `listed_signals` — every name of the sensitivity list denotes a signal (superfluous part only). *)
 From Coq Require Import List NArith Bool.
@@ -27,7 +31,7 @@ Theorem C20_lint_exact :
   forall root p names,
     p_sens p = Some (SensNames names) ->
     get_likely_process_category root p = Some Combinational ->
-    in_family root p = true -> no_out_actuals root p = true ->
+    in_family root p = true -> calls_resolved root p = true ->
     wf_pos root p = true -> listed_signals root names = true ->
     lint_model root p = Some (spec_diags root p names).
 Proof. exact lint_exact. Qed.
@@ -36,7 +40,7 @@ Theorem C20_missing_exact :
   forall root p names,
     p_sens p = Some (SensNames names) ->
     get_likely_process_category root p = Some Combinational ->
-    in_family root p = true -> no_out_actuals root p = true -> wf_pos root p = true ->
+    in_family root p = true -> calls_resolved root p = true -> wf_pos root p = true ->
     exists ds, lint_model root p = Some ds /\
       missing_of ds = match spec_missing root p names with
                       | [] => []
@@ -60,7 +64,7 @@ Theorem C20_superfluous_exact :
   forall root p names,
     p_sens p = Some (SensNames names) ->
     get_likely_process_category root p = Some Combinational ->
-    in_family root p = true -> no_out_actuals root p = true ->
+    in_family root p = true -> calls_resolved root p = true ->
     listed_signals root names = true ->
     exists ds, lint_model root p = Some ds /\ superfluous_of ds = spec_superfluous root p names.
 Proof. exact superfluous_exact. Qed.
@@ -111,12 +115,12 @@ Proof. exact clocked_shape_elsif. Qed.
 (* ---- witnesses (the processes f14, f15, f20 and `hyps` are defined at the end of Lint/Sens.v) ---- *)
 (* the repaired code on the F14 / F15 inputs: a non-trivial instance of the theorem (4 missing, 1 superfluous) *)
 Example C20_f14_now :
-  hyps root6 f14 [sg 2 5] /\ no_out_actuals root6 f14 = true /\
+  hyps root6 f14 [sg 2 5] /\ calls_resolved root6 f14 = true /\
   lint_model root6 f14 =
     Some [DMissing (tk 0) [(1, tk 6); (2, tk 12); (3, tk 16); (4, tk 25)]; DSuperfluous (tk 2)].
 Proof. exact f14_now. Qed.
 Example C20_f15_now :
-  hyps root6 f15 [sg 2 5] /\ no_out_actuals root6 f15 = true /\
+  hyps root6 f15 [sg 2 5] /\ calls_resolved root6 f15 = true /\
   lint_model root6 f15 =
     Some [DMissing (tk 0) [(4, tk 7); (2, tk 9); (3, tk 11); (1, tk 13)]; DSuperfluous (tk 2)].
 Proof. exact f15_now. Qed.
@@ -126,7 +130,7 @@ Proof. exact f15_now. Qed.
    reported after z *)
 Theorem C20_order_old_refuted :
   exists root p names,
-    hyps root p names /\ no_out_actuals root p = true /\
+    hyps root p names /\ calls_resolved root p = true /\
     lint_model_old root p <> Some (spec_diags root p names) /\
     lint_model_old root p =
       Some [DMissing (tk 0) [(1, tk 6); (3, tk 16); (2, tk 19); (4, tk 25)]; DSuperfluous (tk 2)].
@@ -135,20 +139,28 @@ Proof. exact order_old_refuted. Qed.
 (* F15: the pre-fix code gives every actual of a procedure call the span of the call *)
 Theorem C20_call_span_old_refuted :
   exists root p names,
-    hyps root p names /\ no_out_actuals root p = true /\
+    hyps root p names /\ calls_resolved root p = true /\
     lint_model_old root p <> Some (spec_diags root p names) /\
     lint_model_old root p =
       Some [DMissing (tk 0) [(4, (5, 14)); (2, (5, 14)); (3, (5, 14)); (1, (5, 14))]; DSuperfluous (tk 2)].
 Proof. exact call_span_old_refuted. Qed.
 
-(* F20 (open): without `no_out_actuals` the current code violates the statement: the out-mode
-   actual `o` is reported as missing although it is only written *)
-Theorem C20_out_actual_refuted :
+(* F20 on the repaired code (8599f6f): the actual of an out-mode formal is written; the index expressions inside
+   it are read (positional and named association) *)
+Example C20_f20_now :
+  hyps root6 f20 [sg 2 1] /\ lint_model root6 f20 = Some [] /\
+  hyps root6 f20n [sg 2 1] /\ lint_model root6 f20n = Some [DMissing (tk 0) [(3, tk 11)]].
+Proof. exact f20_now. Qed.
+
+(* F20: the code before 8599f6f analysed the actuals of all modes: the out-mode actual `o` was reported as
+   missing although it is only written *)
+Theorem C20_out_actual_old_refuted :
   exists root p names,
-    hyps root p names /\ no_out_actuals root p = false /\
+    hyps root p names /\
     spec_diags root p names = [] /\
-    lint_model root p = Some [DMissing (tk 0) [(5, tk 9)]].
-Proof. exact out_actual_refuted. Qed.
+    lint_model_f20 root p <> Some (spec_diags root p names) /\
+    lint_model_f20 root p = Some [DMissing (tk 0) [(5, tk 9)]].
+Proof. exact out_actual_old_refuted. Qed.
 
 (* ---- the linter's per-unit cache (`SensitivityListLinter::lint`, Lint/SensCache.v) ----
    D = the diagnostics `analyze_unit` yields for one unit (in C20: the `lint_model` diagnostics of the processes
@@ -181,7 +193,7 @@ Check C20_lint_exact :
   forall root p names,
     p_sens p = Some (SensNames names) ->
     get_likely_process_category root p = Some Combinational ->
-    in_family root p = true -> no_out_actuals root p = true ->
+    in_family root p = true -> calls_resolved root p = true ->
     wf_pos root p = true -> listed_signals root names = true ->
     lint_model root p = Some (spec_diags root p names).
 Check C20_no_lint_cases :
@@ -202,7 +214,8 @@ Print Assumptions C20_f14_now.
 Print Assumptions C20_f15_now.
 Print Assumptions C20_order_old_refuted.
 Print Assumptions C20_call_span_old_refuted.
-Print Assumptions C20_out_actual_refuted.
+Print Assumptions C20_f20_now.
+Print Assumptions C20_out_actual_old_refuted.
 Print Assumptions C20_cache_history_exact.
 Print Assumptions C20_cache_every_step_exact.
 Print Assumptions C20_cache_prune_by_primary_refuted.
